@@ -22,7 +22,7 @@ def controlled_now():
 
 SCEN = {
     "ts": ["foreign_dispose_running", "loop_thread_dispose", "not_running_dispose", "stopped_then_dispose", "foreign_dispose_stopped",
-           "late_start_dispose_behind"],
+           "late_start_dispose_behind", "foreign_dispose_stop_restart", "foreign_schedule_loop_dispose"],
     "plain": ["loop_thread_dispose", "not_running_dispose", "stopped_then_dispose", "late_start_dispose_behind"],
 }
 
@@ -81,6 +81,37 @@ def run_once(inst, vals, preempts):
                 loop.call_soon_threadsafe(loop.stop)
             g.spawn(client)
             nclients = 2
+        elif scen == "foreign_dispose_stop_restart":
+            # the loop thread is busy in a callback that ends with stop(); meanwhile a foreign thread schedules and disposes; the
+            # loop is restarted later.  dispose() may only return once the cancellation has taken effect
+            def lbody():
+                loop.call_soon(lambda: (gsleep(2), loop.stop()))
+                loop.run_for(None)
+                gsleep(2)
+                loop.run_for(4)
+
+            def client():
+                gsleep(0.5)
+                H["d"] = submit()
+                if c:
+                    gsleep(c / 2)
+                dispose()
+            g.spawn(lbody, "loop")
+            g.spawn(client)
+            nclients = 2
+        elif scen == "foreign_schedule_loop_dispose":
+            # scheduled from a foreign thread while the loop runs, disposed later from a callback on the loop thread
+            def lbody():
+                loop.call_later(1 + c / 2, lambda: dispose() if "d" in H else None)
+                loop.call_later(7, loop.stop)
+                loop.run_for(None)
+
+            def client():
+                gsleep(0.5)
+                H["d"] = submit()
+            g.spawn(lbody, "loop")
+            g.spawn(client)
+            nclients = 2
         elif scen == "loop_thread_dispose":
             def body():
                 loop.call_soon(lambda: H.__setitem__("d", submit()))
@@ -131,7 +162,7 @@ def run_once(inst, vals, preempts):
         if "A" in started and "disposed" in marks and started["A"][1] > marks["disposed"][1]:
             ok = False  # the action started although dispose() had returned
         if "A" not in started and "disposed" in marks and marks["disposed"][0] > marks["due"] and not preempts and not inst.get("busy") \
-                and scen != "late_start_dispose_behind":
+                and scen not in ("late_start_dispose_behind", "foreign_dispose_stop_restart"):
             ok = False  # (undisturbed run) an action that was due before it was cancelled did run
         if not ok and __import__("os").environ.get("VERIF_DEBUG"):
             print("DEBUG", r, g.errors, bad, started, marks, g.done, file=__import__("sys").stderr)
@@ -148,6 +179,8 @@ def _inst(tier):
             if s == "foreign_dispose_running":
                 out += [dict(i, mode=m, c=c, busy=b) for m in (0, 1, 2) for c in (0, 1, 2, 3) for b in (0, 2)
                         if not (b and (m == 0 or c == 3))]  # split for parallelism
+            elif s in ("foreign_dispose_stop_restart", "foreign_schedule_loop_dispose"):
+                out += [dict(i, mode=m, c=c) for m in (0, 1, 2) for c in (0, 1, 2, 3)]  # split for parallelism
             else:
                 out.append(i)
     return out
@@ -191,7 +224,8 @@ def h_asyncio(a, inst):
 
 ENCODED = ["reactivex/scheduler/eventloop/asynciothreadsafescheduler.py", "reactivex/scheduler/eventloop/asyncioscheduler.py"]
 BOUNDS = {"quick": "AsyncIOThreadSafeScheduler: dispose from a foreign thread while the loop runs, on the loop thread, before the loop ever "
-                   "ran, after the loop ran and stopped (same thread / another thread), behind the scheduler's first callback of a loop that "
+                   "ran, after the loop ran and stopped (same thread / another thread; from a foreign thread while the loop thread is about to stop and restart; scheduled from a "
+                   "foreign thread and disposed on the loop thread), behind the scheduler's first callback of a loop that "
                    "starts late, with the loop thread busy in a 2 s callback; AsyncIOScheduler: the same-thread cases; "
                    "schedule / schedule_relative / schedule_absolute with delay 1..2 s, dispose 0..3 s (0.5..1.5 s of loop run) later; "
                    "1 preemption at coarse yield points of the two scheduler modules and of the loop stub (between its cancelled-check "
